@@ -92,7 +92,7 @@ func checkC12(c *Ctx) {
 		"(C12.sync) in the owners a key that is new is inserted together with exactly one append to keyOrder, an existing key is overwritten without touching keyOrder, and 移除 deletes from the map and splices the key out of keyOrder preserving the order of the others; " +
 		"(C12.index) indexed access translates position−1 and both bounds tests (0 <= i < length) dominate the element access, out-of-range returns IndexOutOfRange with no store, a missing key on read returns IndexKeyNotFound, a keyed write goes through AppendKVPair; " +
 		"(C12.empty) the 'empty list' exits of 首项/末项/左移/右移 are taken exactly when the length is 0; (C12.len) 长度/数目 are len() of the backing store; (C12.order) every producer of a visible ordering of a dictionary derives it from keyOrder, including JSON generation (rule: a dictionary is never routed through a Go map); " +
-		"(C12.copy) DuplicateValue deep-copy rules (shared with C07). (C12.getter) a property getter of a list / dictionary never returns its receiver; NewHashMap writes the value on every iteration (a repeated key takes the last value). NOT decided: the sequence laws of 前增 后增 交换 逆序 合并 包含 寻找 (value-level), the bijection keyOrder<->value after arbitrary histories beyond the per-operation sync rule."
+		"(C12.copy) DuplicateValue deep-copy rules (shared with C07). (C12.getter) a property getter of a list / dictionary never returns its receiver; NewHashMap writes the value on every iteration (a repeated key takes the last value). (C12.iter = C02.iter) 遍历 binds the element's own 1-based position. NOT decided: the sequence laws of 前增 后增 交换 逆序 合并 包含 寻找 (value-level), the bijection keyOrder<->value after arbitrary histories beyond the per-operation sync rule."
 	R.Assumptions = []string{"Go append/slicing semantics", "tables/owners.json lists the intended writers (reviewed)"}
 	u := c.Core()
 	u.buildSSA()
@@ -251,48 +251,51 @@ func checkC12(c *Ctx) {
 	borrowRule(c, "C02", "C02.iter", "C12.iter")
 
 	// ---- C12.empty
-	for _, name := range []string{"arrayGetFirstItem", "arrayGetLastItem", "shiftArrayValue"} {
-		f := u.ssaFunc("pkg/value", name)
-		if f == nil {
+	for _, name := range []string{"arrayGetFirstItem", "arrayGetLastItem", "arrayExecShift", "arrayExecPop"} {
+		root := u.ssaFunc("pkg/value", name)
+		if root == nil {
 			R.lost("C12.empty", "pkg/value."+name)
 			continue
 		}
 		ok, n := true, 0
-		for _, nn := range u.callsNamed(f, "pkg/value.NewNull") {
-			n++
-			guarded := false
-			for _, b := range f.Blocks {
-				ifi, isIf := b.Instrs[len(b.Instrs)-1].(*ssa.If)
-				if !isIf {
-					continue
-				}
-				cmp, isC := ifi.Cond.(*ssa.BinOp)
-				if !isC {
-					continue
-				}
-				isLen := func(v ssa.Value) bool {
-					call, ok := v.(*ssa.Call)
-					if !ok {
-						return false
+		// the answer for the empty list is given by the method itself or by the helper it delegates to
+		for _, f := range family(root, 1) {
+			for _, nn := range u.callsNamed(f, "pkg/value.NewNull") {
+				n++
+				guarded := false
+				for _, b := range f.Blocks {
+					ifi, isIf := b.Instrs[len(b.Instrs)-1].(*ssa.If)
+					if !isIf {
+						continue
 					}
-					bi, ok := call.Call.Value.(*ssa.Builtin)
-					return ok && bi.Name() == "len"
-				}
-				emptyTest := false
-				if isLen(cmp.X) {
-					if k, isK := cmp.Y.(*ssa.Const); isK {
-						emptyTest = (cmp.Op == token.EQL && k.Int64() == 0) || (cmp.Op == token.LEQ && k.Int64() == 0) || (cmp.Op == token.LSS && k.Int64() == 1)
+					cmp, isC := ifi.Cond.(*ssa.BinOp)
+					if !isC {
+						continue
+					}
+					isLen := func(v ssa.Value) bool {
+						call, ok := v.(*ssa.Call)
+						if !ok {
+							return false
+						}
+						bi, ok := call.Call.Value.(*ssa.Builtin)
+						return ok && bi.Name() == "len"
+					}
+					emptyTest := false
+					if isLen(cmp.X) {
+						if k, isK := cmp.Y.(*ssa.Const); isK {
+							emptyTest = (cmp.Op == token.EQL && k.Int64() == 0) || (cmp.Op == token.LEQ && k.Int64() == 0) || (cmp.Op == token.LSS && k.Int64() == 1)
+						}
+					}
+					if emptyTest && edgeDominates(b, b.Succs[0], nn.Block()) {
+						guarded = true
 					}
 				}
-				if emptyTest && edgeDominates(b, b.Succs[0], nn.Block()) {
-					guarded = true
+				if !guarded {
+					ok = false
 				}
-			}
-			if !guarded {
-				ok = false
 			}
 		}
-		R.check(ok && n >= 1, "C12.empty", "pkg/value."+name, u.pos(f.Pos()), "空 is answered exactly when the list has no element", "the empty-list answer is not guarded by 'length is 0' (a non-empty list could lose/hide an element)")
+		R.check(ok && n >= 1, "C12.empty", "pkg/value."+name, u.pos(root.Pos()), "空 is answered exactly when the list has no element", "the empty-list answer is not guarded by 'length is 0' (a non-empty list could lose/hide an element)")
 	}
 
 	// ---- C12.len
@@ -341,7 +344,6 @@ func checkC12(c *Ctx) {
 	// ---- C12.copy
 	ruleDupDeep(c, u, "C12.copy")
 }
-
 
 // ruleKeyOrderSync - the owners keep HashMap.value and HashMap.keyOrder in step (insert, overwrite, delete)
 func ruleKeyOrderSync(c *Ctx, u *Universe, rule string) {
@@ -555,7 +557,7 @@ func checkC19(c *Ctx) {
 		"(C19.catch) every error exit of JSONStringToElement / HashMapToJSONString / ElementToJSONString returns an exception signal built by value.ThrowException (the kind a 拦截 can catch) and the encoding/json error is not dropped; " +
 		"(C19.whole) the parser consumes the whole text (json.Unmarshal / json.Valid, not a streaming Decoder that stops after the first value); (C19.kinds) buildPlainValueFromElement has a case for each JSON-representable value kind mapping to the matching Go kind " +
 		"(numbers stay float64: no integer conversion), and buildElementFromPlainValue has returning cases for exactly the six dynamic types encoding/json produces; (C19.params) the library functions validate their parameter before asserting it; " +
-		"(C19.maprange) the map ranges on this path (C11 classifier). (C19.verbatim) the generated text is exactly string(bytes of json.Marshal); (C19.fresh) no element of a parsed document comes from a package-level variable. NOT decided: RFC 8259 escaping and number formatting (encoding/json, trusted), inverse-ness for all values."
+		"(C19.maprange) the map ranges on this path (C11 classifier). (C19.verbatim) the generated text is exactly string(bytes of json.Marshal); (C19.fresh) no element of a parsed document comes from a package-level variable. (C19.sync = C12.sync) a removed key is gone from the map as well as from the order list. NOT decided: RFC 8259 escaping and number formatting (encoding/json, trusted), inverse-ness for all values."
 	R.Assumptions = []string{"encoding/json implements RFC 8259 for Go maps, slices, strings, float64, bool, nil"}
 	u := c.Core()
 	u.buildSSA()
